@@ -36,7 +36,67 @@ def gen_case(rng, cid, mode):
     return {"id": cid, "script": sc, "arg": 0, "handlers": hs}
 
 
+def meta_ok(p):
+    """programs whose meta stream ProgSem models: simple loop targets, single-call protocol"""
+    from .. import ir as I
+    if p.get("shadow") or p.get("decl", {}).get("var"):
+        return False
+    return not any(s["s"] == "for" and s["t"]["t"] != "name" for s in I.walk(p["body"]))
+
+
+def run_static(out, tier, seed):
+    """skeleton programs: every path, probes on every meta-variable, merged stream against ProgSem (TraceMeta)"""
+    import json
+    import os
+    import random
+    from concurrent.futures import ThreadPoolExecutor
+    from .. import core, progcheck as PC, skeletons as SK
+    rng = random.Random(seed * 7919 + 53)
+    nrand = 80 if tier == "quick" else 2000
+    progs = [p for p in SK.family_f1(quick=(tier == "quick")) + SK.family_f6() + [SK.random_program(rng, 9000 + i) for i in range(nrand)] if meta_ok(p)]
+    opts = {"maxiter": 2, "maxraise": 1, "kinds": ["tuple"], "maxpaths": 8 if tier == "quick" else 40, "seed": seed,
+            "variants": ["meta"], "gen_drive": True, "with_prog": True}
+    work = core.scratch("c06s-")
+    traces = PC.run_jobs(progs, opts, work)
+    cases, skipped = [], 0
+    for t in traces:
+        r = t["runs"][0]
+        if r["act_err"] or r["log"] != [e for e in t["ref"]["log"] if e[0] != "bind"] or r["result"] != t["ref"]["result"]:
+            skipped += 1          # not transparent on this path (C01 judges that); the meta stream is not comparable
+            continue
+        cases.append({"id": t["id"], "form": t["form"], "ctx": t["ctx"], "prog": t["prog"], "reflog": t["ref"]["log"],
+                      "merged": r["streams"][0], "result": t["ref"]["result"], "script": t["script"], "pid": t["pid"]})
+    chunks = [cases[i:i + 400] for i in range(0, len(cases), 400)]
+
+    def one(ix):
+        p = os.path.join(work, f"mv{ix}.json")
+        json.dump(chunks[ix], open(p, "w"))
+        return core.run_tlc("TraceMeta", "TraceMeta.cfg", env={"TRACE_FILE": p}, workers=2, timeout=1800)
+    with ThreadPoolExecutor(max_workers=8) as ex:
+        results = list(ex.map(one, range(len(chunks))))
+    by = {c["id"]: c for c in cases}
+    ndrift = 0
+    for i, r in enumerate(results):
+        out.add_tlc(f"TraceMeta[{i}]", r)
+        for tup in r.tagged("FAIL"):
+            c = by[tup[1]]
+            if tup[2] == "Drift":
+                ndrift += 1
+                if len(out.drift) < 10:
+                    out.drift.append({"form": c["form"], "ctx": c["ctx"], "why": tup[3]})
+                continue
+            out.judge({"clause": tup[2], "var": tup[3] if tup[2] == "MetaEvents" else "", "why": "static"},
+                      {"program": next(p for p in progs if p["id"] == c["pid"]), "script": c["script"], "merged": c["merged"],
+                       "verdict": list(tup[2:])})
+    out.traces += len(cases)
+    out.extra.update({"static_programs": len(progs), "static_paths": len(cases), "static_paths_not_transparent": skipped,
+                      "progsem_drift": ndrift})
+    if cases:
+        out.samples.append({"form": cases[0]["form"], "script": cases[0]["script"], "merged_meta_stream": cases[0]["merged"]})
+
+
 def run(out, tier, seed):
+    run_static(out, tier, seed)
     P.run_world(out, tier, seed, gen_case, PLAN, salt=17,
                 rule="random call trees whose activations end by return, falling off the end, raising (propagating through "
                      "several frames or caught), with loops left by fall-through/continue/break/return/raise; probes on "
